@@ -130,13 +130,16 @@ def run(pid, tier):
         "exhaustive": not agg["capped_scenarios"],
         "scenarios": agg["scenarios"],
         "capped_scenarios": agg["capped_scenarios"],
+        "path_bounded_scenarios(name,hosts,states_expanded,transitions)": agg.get("path_bounded_scenarios", []),
         "outcome_classes": agg["outcome_classes"],
         "family_features": agg["features"],
         "env_object_pass": extra,
         "generative_transitions": agg["transitions"],
         "plan_walk_on_large_generated_scenarios": walk,
         "of_which_through_parameter_vectors": agg.get("param_transitions", 0),
-        "bound": "complete reachable state graph of every family scenario; both draw sides; all flat actions + no-op",
+        "bound": "complete reachable state graph of every family scenario (<= 8 hosts); for the 16-38 host scenarios listed under "
+                 "path_bounded_scenarios: every state on the reference plan x every action x both draws (deviation bound 1 from "
+                 "the plan); both draw sides; all flat actions + no-op",
     }
     return finish(pid, tier, cov, [v for v in violations if v["property"] == pid], ASSUME, t0)
 
